@@ -121,9 +121,12 @@ def run_differential(ctx, cases, project, config='default', label=None, classify
 
 def lean_step(ctx, modules, audit=None):
     ok = ctx.lean(modules)
-    ctx.audit_axioms(audit if audit is not None else [m for m in modules if '.Props.' in m])
-    if ctx.thorough:
-        ctx.leanchecker(modules)
+    if ok:
+        ctx.audit_axioms(audit if audit is not None else [m for m in modules if '.Props.' in m])
+        if ctx.thorough:
+            ctx.leanchecker(modules)
+    else:
+        ctx.notes.append('axiom audit skipped: the modules did not build')
     return ok
 
 
